@@ -75,6 +75,7 @@ type ContractDB struct {
 	Defs  map[string]*SpecDef // by name (global namespace)
 	Axioms []*SpecDef
 	Order []*Contract
+	Views map[string][2]string
 }
 
 var clauseKinds = map[string]bool{
@@ -138,6 +139,15 @@ func parseContractFile(db *ContractDB, path string, defaultPkg string) error {
 			db.ByKey[cur.FullKey()] = cur
 			db.Order = append(db.Order, cur)
 			last, lastDef = nil, nil
+			continue
+		case "readerview":
+			// readerview <pkg.Type> <reader field> <counter field>: *Type used as io.Reader delegates to the field
+			f := strings.Fields(rest)
+			if len(f) != 3 {
+				return fmt.Errorf("%s:%d: readerview <type> <reader field> <counter field>", path, ln)
+			}
+			db.Views[f[0]] = [2]string{f[1], f[2]}
+			cur, last, lastDef = nil, nil, nil
 			continue
 		case "define", "ufun", "axiom", "ghostvar", "const":
 			d := &SpecDef{Kind: word, File: path, Line: ln, Pkg: pkg}
@@ -286,7 +296,7 @@ func parseDef(d *SpecDef, rest string) error {
 }
 
 func loadContracts(repo string, specDir string, pkgDirs map[string]string) (*ContractDB, error) {
-	db := &ContractDB{ByKey: map[string]*Contract{}, Defs: map[string]*SpecDef{}}
+	db := &ContractDB{ByKey: map[string]*Contract{}, Defs: map[string]*SpecDef{}, Views: map[string][2]string{}}
 	specs, _ := filepath.Glob(filepath.Join(specDir, "*.spec"))
 	for _, s := range specs {
 		if err := parseContractFile(db, s, ""); err != nil {
